@@ -12,3 +12,4 @@ import UF.GroupH
 import UF.GroupI1
 import UF.GroupI2
 import UF.GroupI3
+import UF.GroupK
